@@ -129,6 +129,31 @@ add("C30", "vh-pol", True, "exploration",
     "Generated command policies with finish blocks, finish functions and recall blocks, incl. deliberately misplaced finish-only statements (must be rejected by the compiler): no Create/Update/Delete/Emit executes before a finish marker, Panic => no I/O event and unchanged facts, Check exit => a recall ran and every effect is recalled, Normal exit => no recalled effect.",
     "In this language version a Check exit is reachable only through recall; runs ending in I/O errors are constrained only by 'no write before a finish marker'.")
 
+add("C43", "vh-sched", True, "exploration",
+    'schedule-controlled property testing: generated per-task op scripts run under seeded shuttle schedules (uniform random; PCT in thorough) on a build-time instrumented copy of the source (atomics, futex, yield, std Mutex routed to the scheduler; substitution list asserted); occupancy counter + deadlock oracle on both lock variants (futex and CAS)',
+    '2-4 tasks x 1-4 lock rounds with generated scheduling points and spurious futex returns, 300 (quick) / 1000 schedules per script: more than one holder, a wrong total, a deadlock with a blocked waiter (lost wake-up) or a panic is a violation.',
+    'Trusts shuttle and the harness futex/shm models; sequentially consistent interleavings at atomic/futex/mutex granularity only (no weak-memory reorderings; plain-memory races between scheduling points invisible); schedules sampled, not enumerated; liveness only as no-deadlock within the step bound (> 1% cut-offs => inconclusive); Miri tier not implemented.')
+add("C44", "vh-sched", True, "exploration",
+    'schedule-controlled property testing: generated per-task op scripts run under seeded shuttle schedules (uniform random; PCT in thorough) on a build-time instrumented copy of the source (atomics, futex, yield, std Mutex routed to the scheduler; substitution list asserted); quarantining allocator + drop counters + content oracle on the lender/loan pair',
+    '2-3 tasks run generated scripts of lend / shared / get_ref / get_mut / drop loan / move loan / drop lender: a second live loan, access after removal, payload dropped other than exactly once after both sides are gone, double free, leak or poisoned read is a violation.',
+    'Trusts shuttle and the harness futex/shm models; sequentially consistent interleavings at atomic/futex/mutex granularity only (no weak-memory reorderings; plain-memory races between scheduling points invisible); schedules sampled, not enumerated; liveness only as no-deadlock within the step bound (> 1% cut-offs => inconclusive); Miri tier not implemented.')
+add("C33", "vh-sched", True, "exploration",
+    'schedule-controlled property testing: generated per-task op scripts run under seeded shuttle schedules (uniform random; PCT in thorough) on a build-time instrumented copy of the source (atomics, futex, yield, std Mutex routed to the scheduler; substitution list asserted); quarantining allocator + content oracle on the reference-counted text representation',
+    '2-4 tasks clone, read-and-compare, move and drop 1-3 values around the inline/heap boundary: poisoned content (use after free), live blocks below the number of values with handles, double free or leak is a violation.',
+    'Trusts shuttle and the harness futex/shm models; sequentially consistent interleavings at atomic/futex/mutex granularity only (no weak-memory reorderings; plain-memory races between scheduling points invisible); schedules sampled, not enumerated; liveness only as no-deadlock within the step bound (> 1% cut-offs => inconclusive); Miri tier not implemented.')
+add("C40", "vh-sched", True, "exploration",
+    'schedule-controlled property testing: generated per-task op scripts run under seeded shuttle schedules (uniform random; PCT in thorough) on a build-time instrumented copy of the source (atomics, futex, yield, std Mutex routed to the scheduler; substitution list asserted); channel-set / sequence-number model, plus model-based op sequences on the real crate',
+    "Sequential op sequences on the real shm and memory states and concurrent writer + reader scripts on the instrumented copy: successful seals of one context carry 0,1,2,.. (each message decrypted with an independently built key at the header's sequence number) across cache invalidations and failed seals; the memory state refuses a second live context.",
+    'Trusts shuttle and the harness futex/shm models; sequentially consistent interleavings at atomic/futex/mutex granularity only (no weak-memory reorderings; plain-memory races between scheduling points invisible); schedules sampled, not enumerated; liveness only as no-deadlock within the step bound (> 1% cut-offs => inconclusive); Miri tier not implemented.')
+add("C41", "vh-sched", True, "exploration",
+    'schedule-controlled property testing: generated per-task op scripts run under seeded shuttle schedules (uniform random; PCT in thorough) on a build-time instrumented copy of the source (atomics, futex, yield, std Mutex routed to the scheduler; substitution list asserted); channel-set model with happens-before bookkeeping, plus model-based op sequences on the real crate',
+    'A reader op overlapping writer ops k0+1..k1 may see any of the channel sets S_k0..S_k1; it must fail with not-found if the removal returned before it started and must succeed if the channel is in all of them; removed channels never reappear after the removal returned.',
+    'Trusts shuttle and the harness futex/shm models; sequentially consistent interleavings at atomic/futex/mutex granularity only (no weak-memory reorderings; plain-memory races between scheduling points invisible); schedules sampled, not enumerated; liveness only as no-deadlock within the step bound (> 1% cut-offs => inconclusive); Miri tier not implemented.')
+add("C42", "vh-sched", True, "exploration",
+    'schedule-controlled property testing: generated per-task op scripts run under seeded shuttle schedules (uniform random; PCT in thorough) on a build-time instrumented copy of the source (atomics, futex, yield, std Mutex routed to the scheduler; substitution list asserted); map model of both table copies, plus model-based op sequences on the real crate',
+    "add => OutOfSpace iff full; ids strictly increasing and never reused; after every writer op (sequential) and at the end (concurrent) writer-side exists == every reader's exists == model for all ids plus one never issued; every set a reader observes is one the writer produced.",
+    'Trusts shuttle and the harness futex/shm models; sequentially consistent interleavings at atomic/futex/mutex granularity only (no weak-memory reorderings; plain-memory races between scheduling points invisible); schedules sampled, not enumerated; liveness only as no-deadlock within the step bound (> 1% cut-offs => inconclusive); Miri tier not implemented.')
+
 # not built yet: crate assignment only
 add("C01", "vh-rt", True, "exploration",
     'metamorphic + model-based property testing (proptest worlds, k delivery scripts, reference braid model)',
